@@ -206,22 +206,26 @@ func runCheck(o checkOpts) int {
 		go func(i int, u *Unit) {
 			defer wg.Done()
 			defer func() { <-sem }()
-			results[i] = verifyUnit(ld, db, specs, u)
+			results[i] = verifyUnit(ld, db, specs, u, id)
 		}(i, u)
 	}
 	wg.Wait()
 	var obs []*Oblig
 	assumed := map[string]bool{}
 	perUnit := map[string]int{}
-	lemmaSet := map[string]bool{}
+	// library lemmas used by the units: one induction proof per distinct instantiated lemma
+	seenLemma := map[string]bool{}
+	var lemmaObs []*Oblig
 	for _, r := range results {
-		for _, ln := range r.Lemmas {
-			lemmaSet[ln] = true
+		for _, lo := range r.LemmaObs {
+			if !seenLemma[lo.Goal.S] {
+				seenLemma[lo.Goal.S] = true
+				lemmaObs = append(lemmaObs, lo)
+			}
 		}
 	}
-	if len(lemmaSet) > 0 {
-		lp := lemmaProofs(specs, sortedKeys(lemmaSet), []string{id})
-		results = append(results, &UnitResult{Unit: "specs.lemmas", Obs: lp})
+	if len(lemmaObs) > 0 {
+		results = append(results, &UnitResult{Unit: "specs.lemmas", Obs: lemmaObs})
 	}
 	for _, r := range results {
 		for _, p := range r.Problems {
